@@ -85,6 +85,19 @@ def biMergeE (old : Option Store) (new : Store) : Res Store :=
   | none => .ok new
   | some o => if (o ++ new).isEmpty then .error .value else .ok (biMerge (some o) new)
 
+/-- `bi_merge(old_data, [new_1, new_2, ...])`: `new_data` may be a list of frames (lines 261-288).
+    `none` = Python's `None` (no frame at all, lines 266-267); a single frame is returned as it is. -/
+def biMergeL (old : Option Store) (news : List Store) : Option Store :=
+  match old.toList ++ news with
+  | [] => Option.none
+  | [b] => some b
+  | bis => some (mergeFrames bis)
+
+/-- the same with the rejected input: two or more frames, all of them empty (`pd.concat([])`, line 288) -/
+def biMergeLE (old : Option Store) (news : List Store) : Res (Option Store) :=
+  if (old.toList ++ news).length ≥ 2 && (old.toList ++ news).flatten.isEmpty then .error .value
+  else .ok (biMergeL old news)
+
 /-- `_nth` (line 20): `v.iloc[min(n, len(v)-1)]` for `n ≥ 0`, else `v.iloc[max(n, -len(v))]` -/
 def nth (n : Int) (v : Store) : Option Row :=
   if 0 ≤ n then v[min n.toNat (v.length - 1)]?
@@ -140,5 +153,9 @@ def specFirst (log : List Version) (asof : Option Int) : TS :=
 /-- the store after merging the versions of `log` one by one, starting from `None` -/
 def history (log : List Version) : Option Store :=
   log.foldl (fun st v => some (biMerge st (Bi v.ts v.stamp))) none
+
+/-- the store after merging batches of versions (each batch handed to one `bi_merge` call as a list) -/
+def historyL (batches : List (List Version)) : Option Store :=
+  batches.foldl (fun st b => biMergeL st (b.map fun v => Bi v.ts v.stamp)) none
 
 end Pyg.Bitemp
